@@ -392,6 +392,17 @@ func (ts *TermStore) Bin(op Op, a, b *Term) *Term {
 		if b.op == OpConst && b.k == 0 {
 			return a
 		}
+		if op == OpSub {
+			if a == b {
+				return ts.Const(w, 0)
+			}
+			// (x + c) - x, (x + c1) - (x + c2), x - (x + c)
+			ax, ac := splitAddConst(a)
+			bx, bc := splitAddConst(b)
+			if ax == bx && ax != nil {
+				return ts.Const(w, ac-bc)
+			}
+		}
 	case OpBAnd:
 		if a.op == OpConst {
 			if a.k == 0 {
@@ -435,6 +446,22 @@ func (ts *TermStore) Bin(op Op, a, b *Term) *Term {
 		}
 	}
 	return ts.mk(op, w, a, b, nil, 0)
+}
+
+// splitAddConst views t as x + c (c = 0 when t is not an addition of a constant).
+func splitAddConst(t *Term) (*Term, uint64) {
+	if t.op == OpAdd {
+		if t.a.op == OpConst {
+			return t.b, t.a.k
+		}
+		if t.b.op == OpConst {
+			return t.a, t.b.k
+		}
+	}
+	if t.op == OpConst {
+		return nil, t.k
+	}
+	return t, 0
 }
 
 // urange returns a conservative unsigned range of t.
